@@ -177,14 +177,14 @@ Section Queue.
               snd (collect arr fr) = None \/ snd (collect arr fr) = Some e0).
     { intros arr fr P. destruct (snd (collect arr fr)) as [e|] eqn:Es; [right|now left].
       destruct (queue_error_is_some_frames arr fr e Es) as (i & Hi & Hd).
-      f_equal. apply (Huniq i e); [|exact Hd]. apply zrange_In. eapply Permutation_in; eauto. }
-    destruct (G arr1 fr1 P1) as [H1|H1]; destruct (G arr2 fr2 P2) as [H2|H2]; try congruence.
-    - exfalso. apply (queue_error_nil_iff total arr1 fr1 P1) in H1.
+      f_equal. apply (Huniq i e); [|exact Hd]. apply zrange_In. exact (Permutation_in i P Hi). }
+    destruct (G arr1 fr1 P1) as [H1|H1]; destruct (G arr2 fr2 P2) as [H2|H2]; [rewrite H1, H2; reflexivity| | |rewrite H1, H2; reflexivity].
+    - exfalso. pose proof (proj1 (queue_error_nil_iff total arr1 fr1 P1) H1) as H1'.
       destruct (queue_error_is_some_frames arr2 fr2 e0 H2) as (i & Hi & Hd).
-      apply (H1 i); [apply zrange_In; eapply Permutation_in; eauto|exists e0; exact Hd].
-    - exfalso. apply (queue_error_nil_iff total arr2 fr2 P2) in H2.
+      apply (H1' i); [apply zrange_In; exact (Permutation_in i P2 Hi)|exists e0; exact Hd].
+    - exfalso. pose proof (proj1 (queue_error_nil_iff total arr2 fr2 P2) H2) as H2'.
       destruct (queue_error_is_some_frames arr1 fr1 e0 H1) as (i & Hi & Hd).
-      apply (H2 i); [apply zrange_In; eapply Permutation_in; eauto|exists e0; exact Hd].
+      apply (H2' i); [apply zrange_In; exact (Permutation_in i P1 Hi)|exists e0; exact Hd].
   Qed.
 
   (** the repaired rule: the error of the lowest failing index, whatever the arrival order *)
